@@ -57,7 +57,7 @@ WANTED = [("sbdfstring.c", "sbdf_convert_utf8_to_iso88591"), ("sbdfstring.c", "s
           ("object.c", "sbdf_skip_objects"), ("object.c", "sbdf_obj_skip_arr"), ("object.c", "sbdf_obj_skip"),
           ("valuearray.c", "sbdf_read_valuearray_int"), ("valuearray.c", "sbdf_va_skip"), ("columnslice.c", "sbdf_cs_skip"),
           ("object.c", "sbdf_read_objects"), ("object.c", "sbdf_obj_read_arr"), ("object.c", "sbdf_obj_read"),
-          ("valuearray.c", "sbdf_va_read")]
+          ("valuearray.c", "sbdf_va_read"), ("tableslice.c", "sbdf_ts_write_end")]
 PARTIAL = {"sbdf_read_valuearray_int"}          # untranslatable statements of these become SFault instead of failing the function
 IN_PARTIAL = [False]
 GLOBAL_VT = {}          # file-level sbdf_valuetype variables that are initialised with a literal and never written: name -> id
